@@ -38,6 +38,8 @@ pub struct Operation {
     #[serde(skip_serializing_if = "Vec::is_empty")]
     security: Vec<Map<SecuritySchemeName, Vec<&'static str>>>,
 
+    /* optional in OpenAPI 3.1, but when it is there it "MUST contain at least one response code" */
+    #[serde(skip_serializing_if = "Responses::is_empty")]
     responses: Responses,
 }
 #[derive(Clone)]
